@@ -113,10 +113,18 @@ def sched_period(p):
     return max(1, sum(p)) if p else 1
 
 
-def phase_bound(n, sl):
-    per = max(sched_period(sl.get("ready")), sched_period(sl.get("wready")))
+def stall_limit(sl):
+    """a phase is declared hung when the slave saw no event (command, write, read) for this many cycles.  Far above what
+    the schedules alone can cause: a command slot can be missed while the queue is full, so allow several schedule periods
+    plus the largest latency.  (A fixed bound per word was a false alarm with AXI aw/w ready 1 cycle in 25 and qmax 1.)"""
+    per = sched_period(sl.get("ready")) + sched_period(sl.get("wready"))
     lat = max([3, 5] + list(sl.get("wlat") or []) + list(sl.get("rlat") or [])) + max([0] + list(sl.get("rgap") or []))
-    return 300 + n * (per + lat + 8)
+    return 100 + 4 * per + 2 * lat
+
+
+def phase_bound(n, sl):
+    """absolute cap (guards against a device that makes events forever)"""
+    return 400 + (4 * n + 64) * stall_limit(sl)
 
 
 def sequences(cfg, p):
@@ -168,6 +176,7 @@ def run_case(cfg, case, backend="fast", trace=None):
     r.cfg, r.case, r.slave = cfg, case, slave
     r.gs, r.ga, r.cs, r.ca = gs, ga, cs, ca
     r.t = 0
+    r.hung_after = None
 
     def step(extra=()):
         w = slave.cycle(sim, r.t)
@@ -186,9 +195,14 @@ def run_case(cfg, case, backend="fast", trace=None):
         step(w)
         step([(mod.start, 0)])
         bound = phase_bound(n, case["slave"])
+        lim = stall_limit(case["slave"])
         k = 0
+        seen, last = len(slave.log), r.t
         while not sim.get(mod.done):
-            if k >= bound:
+            if len(slave.log) != seen:
+                seen, last = len(slave.log), r.t
+            if k >= bound or r.t - last > lim:
+                r.hung_after = r.t - last
                 return None
             step()
             k += 1
@@ -204,7 +218,7 @@ def run_case(cfg, case, backend="fast", trace=None):
         r.gen_cmds_at_done = sum(1 for e in slave.log if e[0] == "C" and e[3])
         r.gen_writes_at_done = sum(1 for e in slave.log if e[0] == "W")
         k = 0
-        while not slave.idle() and k < phase_bound(len(gs), case["slave"]):
+        while not slave.idle() and k < 64 * stall_limit(case["slave"]):
             step()
             k += 1
         for _ in range(8):
@@ -305,8 +319,8 @@ def oracle(r):
         writes = [e for e in r.gen_log if e[0] == "W" and e[6]]
         cmds = [e for e in r.gen_log if e[0] == "C"]
         if r.gen_done_t is None:
-            fs.append(F("generator_done", "timeout", "generator not done %d cycles after start (%d words, %d commands accepted, %d words written)" %
-                        (phase_bound(n, case["slave"]), n, r.gen_cmds_at_done, r.gen_writes_at_done)))
+            fs.append(F("generator_done", "timeout", "generator not done and no port activity for %d cycles (%d words, %d commands accepted, %d words written)" %
+                        (r.hung_after, n, r.gen_cmds_at_done, r.gen_writes_at_done)))
         else:
             if r.gen_cmds_at_done < n:
                 fs.append(F("generator_done", "done_before_all_commands", "generator done with %d of %d commands accepted" % (r.gen_cmds_at_done, n)))
@@ -352,8 +366,8 @@ def oracle(r):
     reads = [e for e in r.chk_log if e[0] == "R"]
     cmds = [e for e in r.chk_log if e[0] == "C"]
     if r.chk_done_t is None:
-        fs.append(F("checker_done", "timeout", "checker not done %d cycles after start (%d words, %d commands accepted, %d words returned)" %
-                    (phase_bound(n, case["slave"]), n, len(cmds), r.reads_at_done)))
+        fs.append(F("checker_done", "timeout", "checker not done and no port activity for %d cycles (%d words, %d commands accepted, %d words returned)" %
+                    (r.hung_after, n, len(cmds), r.reads_at_done)))
     elif not r.chk_done_after:
         fs.append(F("checker_done", "done_dropped", "checker done went low again without a reset"))
     if any(e[0] == "W" for e in r.chk_log) or any(e[0] == "C" and e[3] for e in cmds) or r.mem_changed_by_check:
